@@ -1,18 +1,30 @@
 #!/bin/bash
 # Runs the quick check of each seeded change's property against a scratch copy of /repo with the
 # change applied, and writes seeded/RESULTS.md. (tools/seedcheck.sh is the full confirmation protocol.)
+# Properties are processed in parallel (VERIF_SEEDALL_JOBS, default 4); the seeds of one property run one
+# after the other because they share that property's test binary.
 cd /verif
+jobs=${VERIF_SEEDALL_JOBS:-4}
+tmp=$(mktemp -d /tmp/verif-seedall-XXXXXX)
+one_prop() {
+  id=$1; tmp=$2
+  lc=$(echo $id | tr A-Z a-z)
+  for d in seeded/${lc}*/; do
+    [ -d "$d" ] || continue
+    name=$(basename $d)
+    p=$d/patch.diff; [ -f $d/patch-rebased-on-hooks.diff ] && p=$d/patch-rebased-on-hooks.diff
+    res=$(tools/mut.sh $p $id 2>&1)
+    sig=$(echo "$res" | grep -m1 -o "sub=[^ ]* sig=[^ ]*")
+    if echo "$res" | grep -q "^VIOLATION"; then caught=yes; else caught=NO; fi
+    note=$(python3 -c "import json;print(json.load(open('$d/meta.json')).get('verif_note',''))" 2>/dev/null)
+    echo "| $name | $id | $caught | $sig | $note |" > $tmp/$name.row
+    echo "$name $caught $sig"
+  done
+}
+export -f one_prop
+for i in $(seq -w 1 20); do echo C$i; done | xargs -P $jobs -I{} bash -c "one_prop {} $tmp"
 out=seeded/RESULTS.md
 echo "| seeded change | property | caught | first signature | note |" > $out
 echo "|---|---|---|---|---|" >> $out
-for d in seeded/*/; do
-  name=$(basename $d)
-  id=$(echo $name | cut -c1-3 | tr a-z A-Z)
-  p=$d/patch.diff; [ -f $d/patch-rebased-on-hooks.diff ] && p=$d/patch-rebased-on-hooks.diff
-  res=$(tools/mut.sh $p $id 2>&1)
-  sig=$(echo "$res" | grep -m1 -o "sub=[^ ]* sig=[^ ]*")
-  if echo "$res" | grep -q "^VIOLATION"; then caught=yes; else caught=NO; fi
-  note=$(python3 -c "import json;print(json.load(open('$d/meta.json')).get('verif_note',''))" 2>/dev/null)
-  echo "| $name | $id | $caught | $sig | $note |" >> $out
-  echo "$name $caught $sig"
-done
+for f in $(ls $tmp/*.row | sort); do cat $f >> $out; done
+rm -rf $tmp
